@@ -129,6 +129,12 @@ CHECKS["C05"]["text"] += " Rotation values 1, 45, 90, 180 and the sentinel 255."
 CHECKS["C06"]["text"] += " Added space protection-fields: every subset of the 13 workbook-protection fields (8191 cases, each field with its own value) and every single field, pair and all 21 fields of the sheet protection."
 CHECKS["C07"]["text"] += " Row and column dimensions of the seeds carry styles of their own (with and without a height / width); the reference grid relocates the style with the dimension and the observation reads it back; cells that are set, moved or copied keep their own style."
 CHECKS["C10"]["text"] += " The alphabet includes the degenerate calls move_range / copy_range by (0,0), insert_new_row(p, 0) and remove_column(p, 0)."
+CHECKS["C11"]["text"] += " Added initial file foreign:multi[shared-pivot-cache] (two sheets whose pivot tables share one cache definition, its .rels and its records); the validator now resolves every r:* attribute of every part against that part's own relationships."
+CHECKS["C12"]["text"] += " Added space retyped: the characters 2024 as text (set_value_string) and through the auto-typing setter (the cell then holds a number: the string must leave the package)."
+CHECKS["C15"]["text"] += " The base password alphabet includes a password with white space at both ends (blank in front, CR LF behind)."
+CHECKS["C14"]["text"] += " The base password alphabet includes a password with white space at both ends."
+CHECKS["C16"]["text"] += " Added configuration: a lazily opened workbook whose loaded sheet has a chart over two unloaded sheets, saved by two clones with DIFFERENT sheet lists (one removed the first sheet); oracle: every part except sharedStrings.xml and the sheet parts is byte-identical to the solo save of the same workbook."
+CHECKS["C20"]["text"] += " Added sheets with 1..6 cells whose text no legacy encoding can represent (the replacement is not pinned; structure and all other fields are)."
 for _c in ("C17","C18","C19","C20"):
     CHECKS[_c]["text"] += " SUPPLEMENTARY (never part of the exhaustive claim): spaces named <id>~par run 4 consecutive cases at the same time on free-running threads - sampled interleavings, absolute oracles, so a report is a real wrong result while a clean pass proves nothing; it exists because a lock or cache introduced by a change carries no hook point for the cooperative scheduler."
 for _c in ("C14","C15","C17","C18","C19","C20"):
